@@ -413,6 +413,34 @@ func c13Main(r *engine.Run) {
 	}) {
 		r.Bound(fmt.Sprintf("all 511 subsets of 3×3 and %d subsets of 4×4 as MultiPoints, with both rotated rectangles", len(masks4)))
 	}
+	// 5×5 lattice (slopes k/4, longer collinear runs): every subset of ≤4 (thorough ≤6) points
+	{
+		pts5 := universe.LatticePoints(5)
+		maxB := 4
+		if r.Thorough() {
+			maxB = 6
+		}
+		var sets [][]ipt
+		var gen func(start int, cur []ipt)
+		gen = func(start int, cur []ipt) {
+			if len(cur) >= 3 {
+				sets = append(sets, append([]ipt(nil), cur...))
+			}
+			if len(cur) == maxB {
+				return
+			}
+			for i := start; i < len(pts5); i++ {
+				gen(i+1, append(cur, ipt{int64(pts5[i].X), int64(pts5[i].Y)}))
+			}
+		}
+		gen(0, nil)
+		r.States.Add(int64(len(sets)))
+		if r.Parallel(len(sets), func(i int) {
+			c13Check(r, mpOf(sets[i]), sets[i], "subset of 5×5", i%5 == 0)
+		}) {
+			r.Bound(fmt.Sprintf("all %d subsets of 3..%d points of the 5×5 lattice as MultiPoints (rotated rectangles on every fifth)", len(sets), maxB))
+		}
+	}
 	r.Sample("hull", hullCase{WKT: mpOf(toI(pts4, 0x8421|0x0660)).AsText(), Note: "subset of 4×4"})
 	// permutations with duplicates
 	maxK := 4
